@@ -183,7 +183,7 @@ def run_check(prop, tier, repo, seed, only, jobs, verbose, write_baseline=False)
             results.append(_worker(j))
     else:
         ctxm = mp.get_context("spawn")
-        with ctxm.Pool(min(jobs, len(job_list))) as pool:
+        with ctxm.Pool(min(jobs, len(job_list)), maxtasksperchild=1) as pool:
             results = pool.map(_worker, job_list, chunksize=1)
 
     kf = load_known_findings()
